@@ -35,7 +35,7 @@ use std::time::Duration;
 pub const META: PropertyMeta = PropertyMeta {
     id: "C16",
     level: "exploration",
-    rule: "account built by a proptest-generated content history (1..12 account-level ops of the C01 set: all secret kinds, updates, moves, deletes, archive, folder create/rename/flags/description/delete) plus 2..4 appended creates, on a forced backend (fs / sqlite) x generated cipher x KDF. Sub-checks sound/<backend>: the drained account_integrity report (concurrency 1 or 4) has zero Failure events. Sub-checks <backend>/<kind>: 1..3 mutations of one kind, applied one at a time and reverted: fs = one byte (xor with a generated non-zero mask) inside the value region of a vault row / the stored row commit / an event record's payload / an event record's stored commit, located with the repo's FormatStream<VaultRecord|EventLogRecord> readers, or removal of a folder's .vault / .events file; sqlite = the same byte change in folder_secrets.meta / .secret / .commit_hash or folder_events.event / .commit_hash through the account's own client, or DELETE of the folder row / of the folder's event rows. Row, folder and byte positions are drawn from the case (monotone mapping of u16 fractions). Oracle: the report after the mutation contains a Failure event naming the affected folder that the report before the mutation did not contain. Sub-checks files/<backend>: a 1..4 KiB external file secret is added; file_integrity over canonical_files reports no failure, then a failure naming the file after one blob byte is changed and after the blob is removed. Non-trivial = the account holds >= 3 secrets in >= 2 folders and (for row/record mutations) some mutation hits a row that is not the first of its folder, (for removals) the folder is not the first one. Distinct = distinct case.",
+    rule: "account built by a proptest-generated content history (1..12 account-level ops of the C01 set: all secret kinds, updates, moves, deletes, archive, folder create/rename/flags/description/delete) plus 2..4 appended creates, on a forced backend (fs / sqlite) x generated cipher x KDF. Sub-checks sound/<backend>: the drained account_integrity report (concurrency 1 or 4) has zero Failure events. Sub-checks sound-replay/<backend>: the same soundness oracle after histories of up to 16 ops that also contain folder-level create / update / delete with caller-chosen ids (fresh, still live, deleted), compaction, sign-out / re-open, followed by 0..2 rewrites (compact folder / account, folder / account password change, cipher change). Sub-check sync-sound (engine B): after every sync of generated multi-device merge cases (the C02/C20 `sync` generator: auto-merge, rewind + replay, force merge) the report of the syncing device has zero Failure events. Sub-checks <backend>/<kind>: 1..3 mutations of one kind, applied one at a time and reverted: fs = one byte (xor with a generated non-zero mask) inside the value region of a vault row / the stored row commit / an event record's payload / an event record's stored commit, located with the repo's FormatStream<VaultRecord|EventLogRecord> readers, or removal of a folder's .vault / .events file; sqlite = the same byte change in folder_secrets.meta / .secret / .commit_hash or folder_events.event / .commit_hash through the account's own client, or DELETE of the folder row / of the folder's event rows. Row, folder and byte positions are drawn from the case (monotone mapping of u16 fractions). Oracle: the report after the mutation contains a Failure event naming the affected folder that the report before the mutation did not contain. Sub-checks files/<backend>: a 1..4 KiB external file secret is added; file_integrity over canonical_files reports no failure, then a failure naming the file after one blob byte is changed and after the blob is removed. Non-trivial = the account holds >= 3 secrets in >= 2 folders and (for row/record mutations) some mutation hits a row that is not the first of its folder, (for removals) the folder is not the first one. Distinct = distinct case.",
     assumptions: &[
         "the mutated regions are exactly those named by the property: row value (encoded meta||secret AEAD packs), row commit, event payload, event commit, blob bytes; length prefixes, ids, timestamps and last_commit fields are never touched",
         "on sqlite 'removing a folder's vault' is deleting its folders row (what the repo's own test does) and 'removing its log' is deleting its folder_events rows",
@@ -406,6 +406,8 @@ pub fn check_case(c: &Case) -> (CaseInfo, CheckResult) {
 
 async fn build_world(history: &History, extra: &[(u16, SecretSpec)]) -> Result<AcctWorld, Failure> {
     let mut w = AcctWorld::new(&history.cfg).await?;
+    // known C01/C02 finding (sqlite identifier unique table-wide): not this property's subject
+    w.avoid.insert("sqlite-id-live-in-two-folders".into());
     for (i, op) in history.ops.iter().enumerate() {
         w.apply(op).await.map_err(|f| Failure::new(f.signature, format!("history op #{i} {}: {}", crate::prop_c01::op_label(op), f.message)))?;
     }
@@ -706,6 +708,23 @@ fn case_strategy(kind: Kind, db: bool, max_ops: usize) -> impl Strategy<Value = 
         })
 }
 
+/// Soundness over richer histories: folder-level operations with caller-chosen (fresh, live,
+/// deleted) ids, compaction, sign-out / re-open, and rewrites (compaction, password and cipher
+/// changes) - the report of the untouched account must still be clean.
+fn sound_replay_strategy(db: bool, max_ops: usize) -> impl Strategy<Value = Case> {
+    (
+        history_strategy(Mix::Replay, max_ops),
+        proptest::collection::vec(crate::engine_acct::rewrite_strategy(), 0..3),
+        proptest::collection::vec((any::<u16>(), spec_strategy()), 0..3),
+        any::<bool>(),
+    )
+        .prop_map(move |(mut history, rewrites, extra, wide)| {
+            history.cfg.db = db;
+            history.ops.extend(rewrites);
+            Case { kind: Kind::Sound, history, extra, wide, muts: vec![] }
+        })
+}
+
 fn file_case_strategy(db: bool) -> impl Strategy<Value = FileCase> {
     (history_strategy(Mix::Content, 5), (any::<u16>(), any::<u16>(), any::<u8>()), mut_strategy(), any::<bool>()).prop_map(move |(mut history, (folder, len, seed), flip, wide)| {
         history.cfg.db = db;
@@ -724,6 +743,13 @@ fn run(shard: &Shard, rep: &mut Report) {
     for db in [false, true] {
         let be = if db { "sqlite" } else { "fs" };
         drive(shard, rep, &format!("sound/{be}"), shard.share(t.pick(40, 700)), case_strategy(Kind::Sound, db, max_ops), with_shrink_budget(shard, SHRINK_BUDGET, |c| check_case(c)));
+        drive(shard, rep, &format!("sound-replay/{be}"), shard.share(t.pick(48, 800)), sound_replay_strategy(db, 16), with_shrink_budget(shard, SHRINK_BUDGET, |c| {
+            let (mut info, r) = check_case(c);
+            if c.history.ops.iter().any(|o| matches!(o, Op::FolderCreate { .. })) {
+                info.class("history-with-folder-level-create");
+            }
+            (info, r)
+        }));
         let kinds: &[Kind] = if db { &DB_KINDS } else { &FS_KINDS };
         for k in kinds {
             drive(shard, rep, &format!("{be}/{}", k.name()), shard.share(t.pick(16, 340)), case_strategy(*k, db, max_ops), with_shrink_budget(shard, SHRINK_BUDGET, |c| check_case(c)));
@@ -733,9 +759,13 @@ fn run(shard: &Shard, rep: &mut Report) {
         }
         drive(shard, rep, &format!("files/{be}"), shard.share(t.pick(8, 100)), file_case_strategy(db), with_shrink_budget(shard, 8, |c| check_file_case(c)));
     }
+    crate::prop_merge::run_sync_subcheck(shard, rep, crate::prop_merge::Mode::Integrity);
 }
 
 fn replay(_shard: &Shard, sub: &str, case: &Value) -> CheckResult {
+    if sub == "sync-sound" {
+        return crate::prop_merge::replay_sync_subcheck(case, crate::prop_merge::Mode::Integrity);
+    }
     if sub.starts_with("files/") {
         let c: FileCase = from_case(case).map_err(|e| Failure::new("harness", e))?;
         check_file_case(&c).1
